@@ -195,6 +195,10 @@ func (x *ctxInfo) verdict(out clientx.Outcome, f string, p int, first string) {
 	case "cancel":
 		if !errors.Is(out.Err, context.Canceled) {
 			x.r.Violate(c, "wrong-error-class", a, fmt.Sprintf("%s: want context.Canceled, got %T: %v", ctx, out.Err, out.Err))
+		} else if isCE {
+			// a cancellation dressed up as the retryable client error: a caller that retries on *ClientError would retry
+			// a call its own user cancelled
+			x.r.Violate(c, "cancel-reported-as-client-error", a, fmt.Sprintf("%s: the caller's cancellation is reported as the library's retryable client error (%T: %v), not as the context's error", ctx, out.Err, out.Err))
 		}
 		k := out.Conn.S.CancelAtRead
 		reads := 0
